@@ -47,7 +47,31 @@ pub fn act_oracle_fault(sim: &mut Sim, ctx: &mut Ctx) -> Option<Tx> {
     let max_conf_frac_num = if bank.config.oracle_max_confidence == 0 { 429_496_730u64 } else { bank.config.oracle_max_confidence as u64 };
     let max_conf_den = u32::MAX as u64;
     let cur = sim.store.get(&info.oracle_key).cloned();
-    let (key, acc, label): (Pubkey, Option<Account>, &'static str) = match info.oracle {
+    let staked_fault: Option<(Pubkey, Option<Account>, &'static str)> = match info.staked {
+        Some((_, sol_pool)) if ctx.rng.chance(1, 2) => {
+            let mint_acc = sim.store.get(&info.keys.mint).cloned();
+            let pool_acc = sim.store.get(&sol_pool).cloned();
+            match (mint_acc, pool_acc) {
+                (Some(mut m), Some(p)) => {
+                    let supply = fixtures::mint_supply(&m.data).unwrap_or(1);
+                    let stake = fixtures::parse_stake(&p.data).unwrap_or(2_000_000_000);
+                    Some(match ctx.rng.below(8) {
+                        0 => { fixtures::set_mint_supply(&mut m.data, 0); (info.keys.mint, Some(m), "lst_supply_zero") }
+                        1 => (sol_pool, Some(fixtures::stake_account(ctx.rng.range(0, 999_999_999), 2)), "stake_below_one_sol"),
+                        2 => (sol_pool, Some(fixtures::stake_account(1_000_000_000, 2)), "stake_exactly_one_sol"),
+                        3 => (sol_pool, Some(fixtures::stake_account(stake, *ctx.rng.pick(&[0u32, 1, 3]))), "stake_state_not_delegated"),
+                        4 => (sol_pool, Some(fixtures::stake_account(stake.saturating_mul(ctx.rng.range(2, 1_000_000)), 2)), "stake_inflated"),
+                        5 => { fixtures::set_mint_supply(&mut m.data, (supply / ctx.rng.range(2, 1_000_000)).max(1)); (info.keys.mint, Some(m), "lst_supply_collapsed") }
+                        6 => (sol_pool, Some(fixtures::stake_account(u64::MAX, 2)), "stake_max"),
+                        _ => { let mut q = p.clone(); q.owner = crate::rt::system_id(); (sol_pool, Some(q), "stake_wrong_owner") }
+                    })
+                }
+                _ => None,
+            }
+        }
+        _ => None,
+    };
+    let (key, acc, label): (Pubkey, Option<Account>, &'static str) = if let Some(f) = staked_fault { f } else { match info.oracle {
         OracleKind::Pyth => {
             let mut p: PythData = cur.as_ref().and_then(|a| fixtures::parse_pyth(&a.data)).unwrap_or(crate::world::pyth_from_micro(info.price_micro, info.expo, 10, 0, now));
             p.publish_time = now;
@@ -120,7 +144,7 @@ pub fn act_oracle_fault(sim: &mut Sim, ctx: &mut Ctx) -> Option<Tx> {
             sim.apply(Event::Tx(Tx::one("admin", ix::set_fixed_oracle_price(g.key, g.admins.admin, bank_pk, crate::world::w(0.0)))));
             (Pubkey::default(), None, "fixed_zero")
         }
-    };
+    } };
     if let Some(a) = acc {
         sim.stats.fault(match label {
             "stale_boundary_minus_1" | "stale_boundary_exact" | "stale_boundary_plus_1" => "oracle_fault_stale_boundary",
@@ -130,6 +154,8 @@ pub fn act_oracle_fault(sim: &mut Sim, ctx: &mut Ctx) -> Option<Tx> {
             "partial_verification" => "oracle_fault_partial_verification",
             "wrong_discriminator" | "truncated" => "oracle_fault_bad_data",
             "wrong_owner" => "oracle_fault_wrong_owner",
+            "lst_supply_zero" | "stake_below_one_sol" | "stake_exactly_one_sol" | "stake_state_not_delegated" | "stake_wrong_owner" => "oracle_fault_stake_pool_unusable",
+            "stake_inflated" | "lst_supply_collapsed" | "stake_max" => "oracle_fault_stake_pool_rate_extreme",
             _ => "oracle_fault_ema_divergence",
         });
         sim.apply(Event::SetAccount { key, account: Some(a), why: "oracle_fault" });
@@ -166,6 +192,11 @@ pub fn act_oracle_fault(sim: &mut Sim, ctx: &mut Ctx) -> Option<Tx> {
                     rm.push(ix::ro(ctx.world.stranger));
                     sim.stats.fault("surplus_remaining_account");
                 }
+                3 | 4 => {
+                    if let Some(label) = substitute_oracle_account(sim, ctx, &mut rm) {
+                        sim.stats.fault(label);
+                    }
+                }
                 _ => {}
             }
             let est = est_max_borrow(sim, &ma, &b.keys.bank).unwrap_or(10);
@@ -174,8 +205,79 @@ pub fn act_oracle_fault(sim: &mut Sim, ctx: &mut Ctx) -> Option<Tx> {
         2 => act_withdraw_boundary(sim, ctx),
         3 => act_hunter(sim, ctx),
         _ => {
-            let rm = risk_metas(&sim.store, &ma, None, None);
+            let mut rm = risk_metas(&sim.store, &ma, None, None);
+            if ctx.rng.chance(1, 2) {
+                if let Some(label) = substitute_oracle_account(sim, ctx, &mut rm) {
+                    sim.stats.fault(label);
+                }
+            }
             Some(Tx::one("crank", ix::pulse_health(ma, rm)))
         }
     }
+}
+
+/// Account-list fault: one oracle account of one position is replaced by a well-formed look-alike
+/// at another address (same owner program, fresh timestamp, far more favourable value).  The
+/// look-alike is written as a fixture first, so the list is the only thing that is wrong.
+pub fn substitute_oracle_account(sim: &mut Sim, ctx: &mut Ctx, rm: &mut [anchor_lang::prelude::AccountMeta]) -> Option<&'static str> {
+    let banks: Vec<Pubkey> = rm.iter().map(|m| m.pubkey).filter(|k| model::bank_of(&sim.store, k).is_some()).collect();
+    if banks.is_empty() {
+        return None;
+    }
+    let bk = *ctx.rng.pick(&banks);
+    let bank = model::bank_of(&sim.store, &bk)?;
+    let keys = crate::world::oracle_metas_for(&bank);
+    if keys.is_empty() {
+        return None;
+    }
+    let j = ctx.rng.below(keys.len() as u64) as usize;
+    let target = keys[j].pubkey;
+    let pos = rm.iter().position(|m| m.pubkey == target)?;
+    let cur = sim.store.get(&target)?.clone();
+    let now = sim.clock.unix_timestamp;
+    let up = ctx.rng.chance(1, 2);
+    let mut clone = cur.clone();
+    let label: &'static str;
+    use marginfi_type_crate::types::OracleSetup;
+    match (bank.config.oracle_setup, j) {
+        (OracleSetup::PythPushOracle, 0) | (OracleSetup::StakedWithPythPush, 0) => {
+            let mut p = fixtures::parse_pyth(&cur.data)?;
+            p.publish_time = now;
+            if up {
+                p.price = p.price.saturating_mul(20);
+                p.ema_price = p.ema_price.saturating_mul(20);
+            } else {
+                p.price /= 20;
+                p.ema_price /= 20;
+            }
+            p.conf = 0;
+            p.ema_conf = 0;
+            let info = ctx.world.bank_info(&bk)?;
+            clone.data = fixtures::pyth_account_data(info.feed_id, &p);
+            label = "oracle_account_substituted_feed";
+        }
+        (OracleSetup::SwitchboardPull, 0) => {
+            let mut d = fixtures::parse_swb(&cur.data)?;
+            d.last_update_timestamp = now;
+            d.value = if up { d.value.saturating_mul(20) } else { d.value / 20 };
+            d.std_dev = 0;
+            clone.data = fixtures::swb_account_data(&d);
+            label = "oracle_account_substituted_feed";
+        }
+        (OracleSetup::StakedWithPythPush, 1) => {
+            let s0 = fixtures::mint_supply(&cur.data)?;
+            fixtures::set_mint_supply(&mut clone.data, if up { (s0 / 1000).max(1) } else { s0.saturating_mul(1000) });
+            label = "oracle_account_substituted_lst_mint";
+        }
+        (OracleSetup::StakedWithPythPush, 2) => {
+            let st = fixtures::parse_stake(&cur.data)?;
+            clone = fixtures::stake_account(if up { st.saturating_mul(1000) } else { (st / 1000).max(1_000_000_001) }, 2);
+            label = "oracle_account_substituted_stake_pool";
+        }
+        _ => return None,
+    }
+    let key = ctx.rng.pubkey();
+    sim.apply(Event::SetAccount { key, account: Some(clone), why: "fixture_lookalike" });
+    rm[pos].pubkey = key;
+    Some(label)
 }
